@@ -89,13 +89,19 @@ class Item:
 class SymItemList:
     """list of pairwise distinct abstract items with symbolic length n >= lo.
 
-    at(j): item id at position j;  pos(x): position of item id x (valid iff contained)."""
+    at(j): item id at position j;  pos(x): position of item id x (valid iff contained).
+    Axiom (trigger on item_<name>(j)):  0 <= j < n  =>  pos(item(j)) == j   (items pairwise distinct).
+    `subset_of(P)` facts are triggers on the same symbol."""
 
     def __init__(self, name, n=None, lo=1):
         self.name = name
         self.n = n if n is not None else core.sym_int(f"n_{name}", lo)
         self._at = z3.Function(f"item_{name}", z3.IntSort(), z3.IntSort())
         self._pos = z3.Function(f"pos_{name}", z3.IntSort(), z3.IntSort())
+        zn = self.zn()
+        at, pos = self._at, self._pos
+        ctx().add_trigger(f"item_{name}", lambda j: z3.Implies(z3.And(j >= 0, j < zn), pos(at(j)) == j))
+        self._subset_cache = {}
 
     def __symlen__(self):
         return self.n
@@ -109,11 +115,7 @@ class SymItemList:
         return to_int(self.n)
 
     def at_expr(self, j):
-        j = to_int(j)
-        e = self._at(j)
-        # injectivity instance
-        ctx().assume(z3.Implies(z3.And(j >= 0, j < self.zn()), self._pos(e) == j))
-        return e
+        return self._at(to_int(j))
 
     def contains_expr(self, x):
         p = self._pos(x)
@@ -138,6 +140,33 @@ class SymItemList:
 
     def __iter__(self):
         raise core.Unsupported("iteration over symbolic item list")
+
+    def assume_subset_of(self, other):
+        """precondition: every item of self is an item of other"""
+        zn = self.zn()
+        at = self._at
+        ctx().add_trigger(f"item_{self.name}", lambda j: z3.Implies(z3.And(j >= 0, j < zn), other.contains_expr(at(j))))
+        self._subset_cache[id(other)] = True
+
+    def subset_of(self, other):
+        """-> bool / SymBool: all items of self are in other (decided once per pair and path)"""
+        if not isinstance(other, SymItemList):
+            raise core.Unsupported("subset test against a non-symbolic item list")
+        if other is self:
+            return True
+        k = id(other)
+        if k in self._subset_cache:
+            return self._subset_cache[k]
+        c = ctx()
+        b = c.fresh(f"subset_{self.name}_{other.name}", "bool")
+        w = c.fresh(f"w_{self.name}", "int")
+        zn = self.zn()
+        at = self._at
+        c.add_trigger(f"item_{self.name}", lambda j: z3.Implies(z3.And(b, j >= 0, j < zn), other.contains_expr(at(j))))
+        c.assume(z3.Implies(z3.Not(b), z3.And(w >= 0, w < zn, z3.Not(other.contains_expr(at(w))))))
+        r = wrap(b)
+        self._subset_cache[k] = r
+        return r
 
     def __deepcopy__(self, memo):
         return self
@@ -180,3 +209,62 @@ def make_array(name, dims, cls=None, values=None):
     if values is None:
         values = symnp.SymArr.input(name, shape)
     return cls.model_construct(dims=ds, values=values, name=name)
+
+
+# ----------------------------------------------------------------------------------------
+# mechanical rewriting of list comprehensions (the only source transformation the checker makes)
+
+REWRITE_TARGETS = [
+    "flodym.flodym_arrays.SubArrayHandler._set_ids_single_dim",
+]
+
+
+def rewrite_listcomps(fn):
+    """Return a copy of `fn` in which every `[elt for x in it]` (one generator, no condition) is
+    replaced by `__fvc_listcomp__(lambda x: elt, it)`.  Nothing else changes; for ordinary
+    iterables the helper evaluates the very same comprehension."""
+    import ast
+    import inspect
+    import textwrap
+
+    src = textwrap.dedent(inspect.getsource(fn))
+    tree = ast.parse(src)
+    count = [0]
+
+    class T(ast.NodeTransformer):
+        def visit_ListComp(self, node):
+            self.generic_visit(node)
+            if len(node.generators) != 1:
+                return node
+            g = node.generators[0]
+            if g.ifs or g.is_async or not isinstance(g.target, ast.Name):
+                return node
+            lam = ast.Lambda(
+                args=ast.arguments(posonlyargs=[], args=[ast.arg(arg=g.target.id)], kwonlyargs=[], kw_defaults=[], defaults=[]),
+                body=node.elt,
+            )
+            count[0] += 1
+            return ast.copy_location(ast.Call(func=ast.Name(id="__fvc_listcomp__", ctx=ast.Load()), args=[lam, g.iter], keywords=[]), node)
+
+    tree = T().visit(tree)
+    ast.fix_missing_locations(tree)
+    ns = {}
+    code = compile(tree, filename=f"<fvc-rewrite of {fn.__qualname__}>", mode="exec")
+    exec(code, fn.__globals__, ns)
+    new = ns[fn.__name__]
+    new.__qualname__ = fn.__qualname__
+    new.__fvc_rewritten__ = count[0]
+    return new
+
+
+def rewrite_stubs():
+    """(owner, attr, new) triples for harness._Stubs"""
+    from . import units
+
+    out = []
+    for q in REWRITE_TARGETS:
+        owner_q, attr = q.rsplit(".", 1)
+        owner = units.resolve(owner_q)
+        fn = getattr(owner, attr)
+        out.append((owner, attr, rewrite_listcomps(fn)))
+    return out
